@@ -36,11 +36,15 @@ SvVal(s, v) == IF v \in SV THEN E("val", ToString(s.sv[v])) ELSE E("val", "empty
 EcVal(s, e) == IF e \in EC THEN E("val", ToString(s.ec[e])) ELSE E("val", "empty")
 AlRec(s, a) == E(a, IF s.al[a].set THEN "set" ELSE "clear")
 Known(x, k) == E(x, IF k THEN "known" ELSE "unknown")
+(* the predefined status variables AlarmsEnabled / AlarmsSet list the alarm ids (compared as sets of names)    *)
+AlStr(S) == CASE S = {} -> "none" [] S = {"al1"} -> "al1" [] S = {"al2"} -> "al2" [] OTHER -> "al1,al2"
 
 Eff(s, i) ==
   CASE i.k = "ReadSV" ->      \* S1F3
          One(s, O(IF i.ids = <<>> THEN Stars(NPre) \o Map(SvOrder, LAMBDA v : SvVal(s, v))
                   ELSE Map(i.ids, LAMBDA v : SvVal(s, v)), <<>>))
+    [] i.k = "ReadAlarmSVs" -> \* S1F3 for the predefined AlarmsEnabled, AlarmsSet: independent of each other
+         One(s, O(<<E("enabled", AlStr({a \in AL : s.al[a].en})), E("set", AlStr({a \in AL : s.al[a].set}))>>, <<>>))
     [] i.k = "ListSV" ->      \* S1F11: the ids, in request order; unknown ids carry empty name/unit
          One(s, O(IF i.ids = <<>> THEN Stars(NPre) \o Map(SvOrder, LAMBDA v : Known(v, TRUE))
                   ELSE Map(i.ids, LAMBDA v : Known(v, v \in SV)), <<>>))
@@ -87,7 +91,7 @@ Inputs ==
   \cup {[k |-> "SetEC", ps |-> <<[e |-> "ec1", x |-> x], [e |-> f, x |-> y]>>] : x \in {0, 7, 11}, f \in ECX, y \in {-1, 3}}
   \cup {[k |-> "AlarmEnable", a |-> a, en |-> b] : a \in ALX, b \in BOOLEAN}
   \cup {[k |-> "ListAlarms", ids |-> q] : q \in IdLists(ALX)}
-  \cup {[k |-> "ListEnabled"]}
+  \cup {[k |-> "ListEnabled"]} \cup {[k |-> "ReadAlarmSVs"]}
   \cup {[k |-> "SetAlarm", a |-> a, on |-> b] : a \in AL, b \in BOOLEAN}
   \cup {[k |-> "UpdateSV", v |-> v, x |-> x] : v \in SV, x \in {0, 1}}
 =============================================================================
